@@ -22,8 +22,13 @@ def pairs_exhaustive(maxn, sigma):
 def seeded_pairs(rng, tier):
     out = []
     ms = [1, 2, 31, 62, 63, 64, 65, 127, 128, 129, 191, 192, 193, 255, 256, 257]
+    ms += [400, 640]            # unrelated pairs this long have distances beyond 255
     if tier != "quick":
         ms += [320, 511, 512, 513, 1023, 1024, 1025, 1500, 3000]
+    # unrelated long pairs over the full 13-symbol alphabet: distances beyond 255
+    for m in ([300, 400, 640] if tier == "quick" else [300, 400, 640, 900, 1024, 1400, 2500]):
+        for _ in range(2):
+            out.append(([rng.randrange(13) for _ in range(m + rng.randint(0, 60))], [rng.randrange(13) for _ in range(m)]))
     reps = 3 if tier == "quick" else 12
     for m in ms:
         for r in range(reps):
